@@ -198,3 +198,29 @@ PROPS["C15"] = {
                   T("TestC15Receive", {"checks": 3, "shards": 4}, {"checks": 12, "shards": 8})],
     }],
 }
+
+PROPS["C16"] = {
+    "level": "exploration",
+    "assumptions": ["lower bounds (no exit / no socket close before the delay) are one-sided on the monotonic clock; the upper bound is delay + 10 s",
+                    "late replies arrive at most at half the delay (later ones are a documented don't-care: scheduling and ring latencies)",
+                    "the virtual wire's Close time stands for the moment the kernel socket stops receiving"],
+    "max_parallel": 12,
+    "units": [{
+        "pkg": "command",
+        "tests": [T("TestC16ExitDelay", {"checks": 10, "shards": 12}, {"checks": 120, "shards": 16}),
+                  T("TestC16AppExitDelay", {"checks": 10, "shards": 4}, {"checks": 100, "shards": 8})],
+    }],
+}
+
+PROPS["C19"] = {
+    "level": "exploration",
+    "assumptions": ["timing is one-sided: delegate-side timestamps (pass drained -> next GenerateRequests call) and 'first probe of pass k not before start+(k-1)*interval' at command level",
+                    "whether passes resume after a pass that failed to start is a documented don't-care",
+                    "at command level pass boundaries are not observed in order (pipeline workers may reorder), so coverage is judged by per-target counts"],
+    "max_parallel": 12,
+    "units": [{
+        "pkg": "command",
+        "tests": [T("TestC19Live", {"checks": 40, "shards": 8}, {"checks": 400, "shards": 16}),
+                  T("TestC19Command", {"checks": 8, "shards": 6}, {"checks": 80, "shards": 12})],
+    }],
+}
